@@ -16,6 +16,14 @@ Theorem C15_pairing : forall ops k, inv k -> run_ok ops k ->
 Proof. exact run_refines. Qed.
 Print Assumptions C15_pairing.
 
+(* the same for EVERY per-readout header array at once (scan_counter, idx labels, ... - all AcqInfo tensors go through the same
+   code path): rs is any set of arrays that avoids the label a split overwrites and center_sample (array 7) when
+   remove_readout_os is used, whose values are shifted with the window (C15_os_crop_window) *)
+Theorem C15_pairing_all_header_arrays : forall (rs : Z -> Prop) ops k, inv_on rs k -> run_ok_on rs ops k ->
+  refines_on rs (fst (fst (run ops k))) k /\ inv_on rs (fst (fst (run ops k))).
+Proof. exact run_refines_on. Qed.
+Print Assumptions C15_pairing_all_header_arrays.
+
 (* samples are dropped / duplicated exactly as the operation specifies *)
 Theorem C15_multiset_select : forall subset label k k', select_other_subset subset label k = inr k' ->
   nO k' = Z.of_nat (length (other_index k label subset)) /\
